@@ -456,8 +456,11 @@ def run(tier, seed, view="C03"):
     fam.extra_cov["native_sweep"] = sweep
     v03 = [v for v in violations if v[0] == "C03"]
     v18 = [v for v in violations if v[0] == "C18"]
-    core.write_evidence(fam, tier, seed, discharged, results, dropped, info, wall, undecided, len(v03), [])
-    write_c18_evidence(fam, tier, seed, discharged, results, info, wall, undecided, len(v18), sweep)
+    # a fresh verifier run writes both views; a run that re-read the cached verifier run rewrites only its own view
+    if view == "C03" or not cached:
+        core.write_evidence(fam, tier, seed, discharged, results, dropped, info, wall, undecided, len(v03), [])
+    if view == "C18" or not cached:
+        write_c18_evidence(fam, tier, seed, discharged, results, info, wall, undecided, len(v18), sweep)
     mine = [v for v in violations if v[0] == view]
     other = [v for v in violations if v[0] != view]
     for prop, okey, path, suffix, mm in mine:
@@ -490,6 +493,9 @@ def write_c18_evidence(fam, tier, seed, discharged, results, info, wall, undecid
             "obligations": len(results), "discharged": len(dset), "checker_cmd": info.get("cmd", ""),
             "trusted_base": core.COMMON_TRUSTED, "cbmc_safety_and_functional_properties_discharged": checks,
             "native_sweep": sweep, "undecided": undecided, "exhaustive": False,
+            "verifier_run_reused_from": fam.extra_cov.get("verifier_run_reused_from"),
+            "solver_time_s": round(sum((r.get("solver_s") or 0) for r in results.values()), 3),
+            "back_end": "Kani 0.68.0 -> CBMC 6.11.0 / CaDiCaL; native oracle (rustc stable, overflow checks on)",
             "not_covered": "token-stream inputs, syn-level expanders (impl/src/parsing.rs, utils.rs, error.rs ...), time bounds",
         },
         "assumptions": ["bounded string lengths as in C03", "expander half of C18 is not reachable by this technique"],
